@@ -382,7 +382,7 @@ Proof.
       specialize (F2 _ Hx). specialize (B2 _ Hx). apply andb_true_intro. split; apply N.leb_le; lia.
     - eapply Forall_impl; [|exact B1]. cbn beta. intros x Hx. unfold in_range.
       replace (st <=? fst x) with false by (symmetry; apply N.leb_gt; subst st; lia). reflexivity. }
-  unfold server_step. rewrite Hc. unfold srv_group.
+  unfold server_step. unfold srv_group.
   replace (range_invalid st 65535) with false.
   2:{ symmetry. unfold range_invalid. apply orb_false_intro; [apply N.eqb_neq | apply N.ltb_ge]; subst st; lia. }
   rewrite Hfilter.
@@ -617,7 +617,7 @@ Proof.
       apply andb_true_intro. split; apply N.leb_le; subst h'; lia.
     - eapply Forall_impl; [|exact Hbel]. cbn beta. intros x Hx. unfold in_range.
       replace (st <=? fst x) with false by (symmetry; apply N.leb_gt; lia). reflexivity. }
-  unfold server_step. rewrite Hc. unfold srv_type.
+  unfold server_step. unfold srv_type.
   replace (range_invalid st e) with false.
   2:{ symmetry. unfold range_invalid. apply orb_false_intro; [apply N.eqb_neq | apply N.ltb_ge]; subst e; lia. }
   rewrite Hfilter.
@@ -819,7 +819,7 @@ Proof.
       apply andb_true_intro. split; apply N.leb_le; subst st; lia.
     - eapply Forall_impl; [|exact B1]. cbn beta. intros x Hx. unfold in_range. fold st in Hx.
       replace (st <=? fst x) with false by (symmetry; apply N.leb_gt; lia). reflexivity. }
-  unfold server_step. rewrite Hc. unfold srv_info.
+  unfold server_step. unfold srv_info.
   assert (Hnz : length ds' <> 0%nat) by (destruct ds'; [congruence|discriminate]).
   replace (range_invalid st hi) with false.
   2:{ symmetry. unfold range_invalid. apply orb_false_intro; [apply N.eqb_neq | apply N.ltb_ge]; subst st; lia. }
@@ -1167,7 +1167,7 @@ Lemma disc_primary_invalid_start s mtu cm f acc :
   = (Raise (EAtt E_INVALID_HANDLE), mkc mtu cm [] false, s).
 Proof.
   intros Hc. cbn [disc_primary]. unfold xfer. cbn [encodable fits16 N.ltb N.compare andb].
-  unfold server_step. rewrite Hc. unfold srv_group. cbn [range_invalid N.eqb orb].
+  unfold server_step. unfold srv_group. cbn [range_invalid N.eqb orb].
   cbn [deliver]. unfold wait, set_q, mkc. cbn [c_q c_mtu c_cmtu c_locked app wait_in acc_group is_err].
   reflexivity.
 Qed.
